@@ -186,7 +186,7 @@ impl<'a> PacketHeaders<'a> {
                     let (vlan, vlan_rest) = match SingleVlanHeader::from_slice(rest) {
                         Ok(v) => v,
                         Err(err) => {
-                            return Err(Len(err.add_offset(slice.len() - rest.len())));
+                            return Err(Len(add_offset(err, rest)));
                         }
                     };
                     // set the rest & ether_type for the following operations
@@ -210,7 +210,7 @@ impl<'a> PacketHeaders<'a> {
                     let macsec = match MacsecSlice::from_slice(rest) {
                         Ok(v) => v,
                         Err(I::Len(err)) => {
-                            return Err(Len(err.add_offset(slice.len() - rest.len())));
+                            return Err(Len(add_offset(err, rest)));
                         }
                         Err(I::Content(err)) => {
                             return Err(Macsec(err));
